@@ -499,6 +499,24 @@ def run_pspace_indexing(ctx):
                     pass
                 except Exception as ex:
                     ctx.violation('ProductSpace.element', 'bad:%s' % bname, 'wrong-exception:' + type(ex).__name__)
+        # data-type counterparts of a product space: components converted, weighting and exponent those of the original
+        for how, conv in (('astype(float32)', lambda q: q.astype('float32')), ('complex_space', lambda q: q.complex_space),
+                          ('complex_space.real_space', lambda q: q.complex_space.real_space), ('astype(complex64).astype(float64)', lambda q: q.astype('complex64').astype('float64'))):
+            ctx.ev('derived-spaces')
+            ctx.case('pspace-dtype;%s;%s' % (pn, how), 0)
+            try:
+                c = conv(p)
+                if len(c) != len(p) or float(c.exponent) != float(p.exponent):
+                    ctx.violation('ProductSpace.' + how.split('(')[0], pn, 'exponent-or-length-not-kept', got=util.srepr(c, 100))
+                wp, wc = p.weighting, c.weighting
+                same_w = (type(wp).__name__ == type(wc).__name__ and
+                          (np.array_equal(np.asarray(wp.array), np.asarray(wc.array)) if hasattr(wp, 'array') else getattr(wp, 'const', None) == getattr(wc, 'const', None)))
+                if not same_w:
+                    ctx.violation('ProductSpace.' + how.split('(')[0], pn, 'weighting-not-kept', got=str(wc), want=str(wp))
+                if how in ('complex_space.real_space', 'astype(complex64).astype(float64)') and c != p:
+                    ctx.violation('ProductSpace.' + how.split('(')[0], pn, 'roundtrip!=space', got=util.srepr(c, 100))
+            except Exception as e:
+                ctx.violation('ProductSpace.' + how.split('(')[0], pn, 'raises:' + type(e).__name__, message=str(e)[:200])
         x = p.element([np.arange(s.size, dtype=float).reshape(s.shape) + 10 * k if not isinstance(s, odl.ProductSpace)
                        else [np.arange(3.) + kk + 10 * k for kk in range(len(s))] for k, s in enumerate(p)])
         idxs = [0, -1, slice(0, 2), slice(None, None, 2), [2, 0], (1,), (slice(0, 2),), slice(1, None)]
